@@ -200,3 +200,13 @@ pub fn snapshot(b: &mut Backend) -> Value {
 		"conf_h": b.last_confirmed_height().unwrap_or(0),
 	})
 }
+
+/// What the counterparty receives: the slate after the V4 (compact) JSON wire format — fields
+/// the format drops (the fee and amount on a reply, an empty transaction body, ...) are gone.
+pub fn wire(s: &crate::libwallet::Slate) -> crate::libwallet::Slate {
+	use crate::libwallet::{Slate, SlateVersion, VersionedSlate};
+	let v = VersionedSlate::into_version(s.clone(), SlateVersion::V4).expect("to V4");
+	let js = serde_json::to_string(&v).expect("serialize");
+	let v2: VersionedSlate = serde_json::from_str(&js).expect("parse");
+	Slate::from(v2)
+}
